@@ -743,6 +743,23 @@ def c07(tier):
     for j in range(ntr):
         record_and_validate(rep, RC_COLS[j % len(RC_COLS)], 8, 3, 800 if thorough else 300, SEED * 389 + j,
                             crash=2, label="c07t%d" % j, small=(j % 2 == 1))
+    # counts change while the index of the counting column grows: 80 keys share 18 hash bits (uniform keys, identity
+    # hash), the growth 16 -> 17 -> 18 -> 19 bits leaves two older generations pending at once, and sets / references /
+    # dereferences reach keys that live only in the SECOND pending generation while the first is being migrated
+    two = 0
+    for j in range(2 if thorough else 1):
+        record_and_validate(rep, [{"kind": "rc", "uniform": True, "collide": True, "deep": True}], 80, 3,
+                            2200 if thorough else 1100, SEED * 397 + j, crash=2, label="c07g%d" % j, small=True, dumps=True)
+        gens = set()
+        for e in vcore.read_ndjson(os.path.join(vcore.scratch(), "trace_c07g%d.ndjson" % j)):
+            if e.get("e") == "Dump" and e.get("kind") == "hash":
+                gens.add(tuple(e.get("gens", [])))
+        # (dumps are taken in drained states only: an index of 18 or more bits in this universe was reached through a
+        # growth that started while the previous one was still being migrated)
+        two += 1 if any(g and max(g) >= 18 for g in gens) else 0
+        rep.extra.setdefault("c07_index_generations_seen", []).append(sorted(gens))
+    if two == 0:
+        raise ToolError("C07 growth traces never grew the index twice: vacuous")
     return rep.finish()
 
 
@@ -1154,6 +1171,58 @@ def btree_node_part(rep, thorough, label, light=False):
         generic_replay(rep, "btree-replay", part, {"variant": var}, "%s_bt%d" % (label, j), "btree-replay")
 
 
+
+# ---------------------------------------------------------------------------
+# Slots.tla: value-table slot allocation (C06: storage released and reused; C14: every slot live once or free once),
+# transcribed; the replay compares ADDRESSES
+
+SL_TAGS = ["pop", "extend", "insert", "replace", "move", "remove", "grow_chain", "trim_chain", "same_chain", "crash", "crash_replays"]
+
+
+def slots_part(rep, thorough, label):
+    """Design check of Slots.tla (exhaustive, small constants, necessity configs), then behaviours with the part counts
+    of real values replayed with fill marks, free-list order and the slots of every chain compared."""
+    res = vcore.tlc_check("Slots.tla", os.path.join(vcore.SPEC, "MC_Slots.cfg"), timeout=3000)
+    rep.add_model(res, "MC_Slots")
+    if not res["ok"]:
+        rep.violation("TLC: %s violated in Slots.tla" % res["violated"], {"kind": "model", "cfg": "MC_Slots.cfg", "tlc_tail": res["out"][-5000:]})
+    else:
+        log("[tlc] MC_Slots: %d distinct states: ok" % res["distinct"])
+    for cfg in ["MC_Slots_mut_pop.cfg", "MC_Slots_mut_trim.cfg"]:
+        r = vcore.tlc_check("Slots.tla", os.path.join(vcore.SPEC, cfg), timeout=1200)
+        rep.add_model(r, cfg[:-4])
+        if r["ok"]:
+            raise ToolError("Slots.tla: the wrong variant %s passes the invariants: vacuous" % cfg)
+        log("[tlc] necessity %s: %s violated after %d states, as required" % (cfg[:-4], r["violated"], r["distinct"]))
+    behs, gen, _ = vcore.tlc_simulate("Slots.tla", os.path.join(vcore.SPEC, "GEN_Slots.cfg"), 160 if thorough else 36, 121, SEED + 23)
+    rep.transitions += gen
+    covered = set()
+    for b in behs:
+        covered.update(b["tags"])
+    missing = [t for t in SL_TAGS if t not in covered]
+    rep.extra["slot_transitions_covered"] = sorted(covered)
+    if missing:
+        raise ToolError("Slots behaviours do not take the transitions %s: vacuous" % missing)
+    # the binding is sensitive: a behaviour with a changed expected address must be reported
+    t = json.loads(json.dumps(behs[0]))
+    for st in t["steps"][len(t["steps"]) // 3:]:
+        st["x"]["mem"][-1][0] += 1
+    inp, outp = os.path.join(vcore.scratch(), "sl_tamper.ndjson"), os.path.join(vcore.scratch(), "sl_tamper.out")
+    vcore.write_ndjson(inp, [t])
+    vcore.pdbh("slots-replay", {"in": inp, "out": outp})
+    if not any(r["violations"] for r in vcore.read_ndjson(outp)):
+        raise ToolError("slots-replay ACCEPTED a behaviour with a changed expected fill mark: the binding is not sensitive")
+    full = heads = 0
+    for j, var in enumerate(["", "lz4"] + (["snappy"] if thorough else [])):
+        results = generic_replay(rep, "slots-replay", behs if (thorough or j == 0) else behs[::2], {"variant": var}, "%s_sl%d" % (label, j), "slots-replay")
+        full += sum(r.get("full_compares", 0) for r in results)
+        if var:
+            heads += sum(r.get("compressed_heads", 0) for r in results)
+    rep.extra["slot_address_comparisons"] = full
+    rep.extra["compressed_chain_heads_seen"] = heads
+    if full < 100 or heads < 20:
+        raise ToolError("slots-replay compared %d complete layouts and met %d compressed chains: vacuous" % (full, heads))
+
 # ---------------------------------------------------------------------------
 # C04: btree columns
 
@@ -1238,7 +1307,9 @@ def c18(tier):
                 "drop / die, all interleavings; behaviours generated by TLC and replayed with real handles and real child "
                 "processes (killed with SIGKILL for Die): an open while a handle lives must fail with Error::Locked and "
                 "leave every file byte-identical, after drop or death the next open must succeed and see what was "
-                "committed through cleanly dropped handles; plus racing opens from 4 threads (exactly one may win); "
+                "committed through cleanly dropped handles; a client may keep a tree reader obtained from its handle beyond "
+                "the handle's life (Keep / Release): the lock goes with the handle, not with what the client still holds; "
+                "plus racing opens from 4 threads (exactly one may win); "
                 "non-trivial = an open attempted while another handle is alive")
     rep.assumptions = ["flock semantics of the local file system (per open file description)"]
     vcore.build_harness()
@@ -1251,6 +1322,23 @@ def c18(tier):
         log("[tlc] MC_Lock: %d distinct states: ok" % res["distinct"])
     behs, gen, _ = vcore.tlc_simulate("Lock.tla", os.path.join(vcore.SPEC, "GEN_Lock.cfg"), 400 if thorough else 60, 16, SEED)
     rep.transitions += gen
+    # an open that must succeed although the client still keeps a tree reader of a handle it has dropped
+    def open_past_kept(b):
+        kept, dropped = set(), set()
+        for e in b:
+            if e["a"] == "Keep":
+                kept.add(e["actor"])
+            elif e["a"] == "Release":
+                kept.discard(e["actor"])
+                dropped.discard(e["actor"])
+            elif e["a"] == "Drop" and e["actor"] in kept:
+                dropped.add(e["actor"])
+            elif e["a"] == "Open" and e.get("ok") and dropped:
+                return True
+        return False
+    rep.extra["opens_after_drop_with_reader_kept"] = sum(1 for b in behs if open_past_kept(b))
+    if rep.extra["opens_after_drop_with_reader_kept"] < 3:
+        raise ToolError("Lock behaviours hold fewer than 3 opens after the drop of a handle whose tree reader is still kept: vacuous")
     generic_replay(rep, "lock-replay", behs, {"children": "3"}, "c18", "lock-replay")
     p = vcore.pdbh("lock-race", {"rounds": 200 if thorough else 40})
     summary = json.loads(p.stdout.strip().splitlines()[-1])
@@ -1570,6 +1658,9 @@ def c14(tier):
     # btree columns (BTreeNode.tla): no unreachable node, no child lost - the stored shape is the specification's
     # after every operation on canonical and random trees (every structural transition required to occur)
     btree_node_part(rep, thorough, "c14", light=not thorough)
+    # value tables (Slots.tla): fill mark, free-list order and the slots of every chain are the specification's after
+    # every commit, enacted record and crash recovery
+    slots_part(rep, thorough, "c14")
     return rep.finish()
 
 
@@ -1629,6 +1720,9 @@ def c06(tier):
     multi = [[{"kind": "hash", "multi": True}], [{"kind": "btree", "multi": True}, {"kind": "rc", "multi": True}]]
     for j, cols in enumerate(multi + ([[{"kind": "hash", "multi": True, "comp": "lz4", "threshold": 0}]] if thorough else [])):
         record_and_validate(rep, cols, 3, 6, 900 if thorough else 450, SEED * 83 + j, crash=1, label="c06m%d" % j, dumps=True)
+    # storage of an overwritten / removed value is released and reused (Slots.tla): addresses predicted by the
+    # specification, plain and compressed chains
+    slots_part(rep, thorough, "c06")
     rep.evaluations += written
     rep.extra["values_written"] = written
     rep.sample({"boundary_lengths_first": "0,1,2,3,4,5, then cap-1/cap/cap+1 of each of 255 tiers, multipart boundaries, 1048577, 3000001"})
@@ -1679,8 +1773,11 @@ def c09(tier):
         [{"kind": "rc", "uniform": True, "collide": True}],
         # growth triggered from a reindex batch: 80 keys share 18 hash bits, two generations pending at once
         [{"kind": "hash", "uniform": True, "collide": True, "deep": True}],
+        # keys whose partial key is zero in every bit the vectorised page search compares and non-zero in the bits it
+        # drops (every sixteenth key), on pages where removals leave free slots in front of live entries
+        [{"kind": "hash", "uniform": True, "collide": True, "zeropk": True}],
     ]
-    ntr = 12 if thorough else 4
+    ntr = 15 if thorough else 5
     growth = {"reindex_records": 0, "traces_with_growth": 0, "traces_with_two_pending_generations": 0, "max_index_bits": 16}
     for j in range(ntr):
         cols = colsets[j % len(colsets)]
@@ -1718,14 +1815,14 @@ def c09(tier):
 
 def mt_cfg(rc=False, ao=False, fine=False, shapes="ShapesSmall", maxids=5, maxcommits=4, maxlocks=0, maxdefers=2, maxcrash=0,
            nt=2, nv=1, fix=("F18", "F20"), mut=(), gen=False, genlen=30, invariants=None, pipes=("flush", "enact", "clean"),
-           rejw=6, script=None):
+           rejw=6, script=None, swap=False):
     b = lambda x: "TRUE" if x else "FALSE"
     sset = lambda xs: "{" + ", ".join('"%s"' % x for x in xs) + "}"
     lines = ["SPECIFICATION %s" % ("ScriptSpec" if script else "GenSpec" if gen else "MCSpec"), "CONSTANTS",
              "  Script <- %s" % (script or "ScriptNone"),
              "  NT = %d" % nt, "  NX = 1", "  NV = %d" % nv, "  MaxIds = %d" % maxids, "  MaxCommits = %d" % maxcommits,
              "  MaxLocks = %d" % maxlocks, "  MaxCrash = %d" % maxcrash, "  MaxDefers = %d" % maxdefers, "  RcRoots = %s" % b(rc), "  AO = %s" % b(ao),
-             "  Fine = %s" % b(fine), "  Fix = %s" % sset(fix), "  Mut = %s" % sset(mut), "  NoHist = %s" % b(not gen),
+             "  Fine = %s" % b(fine), "  Fix = %s" % sset(fix), "  Mut = %s" % sset(mut), "  NoHist = %s" % b(not gen), "  Swap = %s" % b(swap),
              "  Shapes <- %s" % shapes,
              "  GenLen = %d" % genlen, "  Pipes = %s" % sset(pipes), "  RejW = %d" % rejw]
     if script:
@@ -1801,7 +1898,7 @@ def mt_record_and_validate(rep, variant, steps, seed, crash=0, nt=5, maxids=300,
     cfg = write_cfg("\n".join([
         "SPECIFICATION TraceSpec", "CONSTANTS", "  NT = %d" % nt, "  NX = 2", "  NV = 3", "  MaxIds = %d" % maxids,
         "  MaxCommits = 1000000", "  MaxLocks = 1000000", "  MaxCrash = 1000000", "  RcRoots = %s" % b("rc" in vs),
-        "  AO = %s" % b("ao" in vs), "  Fine = FALSE", '  Fix = {"F18", "F20"}', "  Mut = {}", "  NoHist = TRUE", "  Shapes <- NoShapes",
+        "  AO = %s" % b("ao" in vs), "  Fine = FALSE", '  Fix = {"F18", "F20"}', "  Mut = {}", "  NoHist = TRUE", "  Swap = FALSE", "  Shapes <- NoShapes",
         "VIEW TraceView", "INVARIANTS TypeOK NoCorrupt ReaderStable IdealVisible XVisible FinalState",
         "POSTCONDITION TraceAccepted", "CHECK_DEADLOCK FALSE"]) + "\n")
     res = vcore.tlc_trace("MCTraceMultiTree.tla", cfg, out)
@@ -1842,7 +1939,7 @@ def mt_live_and_validate(rep, variant, trees, seed, label=""):
     cfg = write_cfg("\n".join([
         "SPECIFICATION TraceSpec", "CONSTANTS", "  NT = %d" % summary.get("nt", 6), "  NX = 1", "  NV = 1",
         "  MaxIds = %d" % (int(summary.get("ids", 0)) + 20), "  MaxCommits = 1000000", "  MaxLocks = 1000000", "  MaxCrash = 0",
-        "  RcRoots = %s" % b("rc" in vs), "  AO = FALSE", "  Fine = TRUE", '  Fix = {"F18", "F20"}', "  Mut = {}", "  NoHist = TRUE",
+        "  RcRoots = %s" % b("rc" in vs), "  AO = FALSE", "  Fine = TRUE", '  Fix = {"F18", "F20"}', "  Mut = {}", "  NoHist = TRUE", "  Swap = FALSE",
         "  Shapes <- NoShapes", "VIEW TraceView", "CONSTRAINT TrackL",
         "INVARIANTS TypeOK NoCorrupt ReaderStable IdealVisible FinalState", "POSTCONDITION TraceAccepted",
         "CHECK_DEADLOCK FALSE"]) + "\n")
@@ -2002,6 +2099,23 @@ def c11(tier):
     sb = [b for b in sb if not any(o.get("conflict") for o in b["obs"])]
     rep.extra["scripted_behaviours"] = len(sb)
     generic_replay(rep, "mtree-replay", sb, {"seed": SEED + 70, "variant": "rc"}, "c11s", "mtree-replay")
+    # transactions that insert a tree AND dereference another one (insert the new state, prune an old one; Swap): the
+    # design with them (all interleavings), then scripted behaviours in which such a transaction is postponed behind a
+    # later commit while a reader holds the tree it dereferences - the tree it inserted must stay readable with all its
+    # new nodes under the fresh id, and the dereference completes after the unlock
+    run_model(rep, mt_cfg(fine=True, shapes="ShapesTiny", maxids=4, maxcommits=4 if thorough else 3, maxlocks=1, maxdefers=2, nt=2, nv=1,
+                          swap=True), "MC_MultiTree_fine_swap", module="MCMultiTree.tla", timeout=3400)
+    nsw = 0
+    for j, (script, nt) in enumerate([("ScriptSwapDefer", 2), ("ScriptSwapDefer2", 3)]):
+        sb = mt_scripted(rep, script, limit=60 if thorough else 24, rc=False, fine=False, shapes="ShapesSmall", maxids=8,
+                         maxcommits=6, maxlocks=2, maxdefers=3, nt=nt, nv=1, swap=True)
+        sb = [b for b in sb if not any(o.get("conflict") for o in b["obs"])]
+        nsw += sum(1 for b in sb if any(e["a"] == "Commit" and e["tx"]["tree"].get("dk") and e["tx"]["tree"].get("new") for e in b["steps"]))
+        for var in (["", "direct"] if thorough or j == 0 else [""]):
+            generic_replay(rep, "mtree-replay", sb, {"seed": SEED + 80 + j, "variant": var}, "c11sw%d%s" % (j, var[:1]), "mtree-replay")
+    rep.extra["postponed_insert_and_dereference_transactions_with_new_nodes"] = nsw
+    if nsw < 5:
+        raise ToolError("scripted Swap behaviours hold %d postponed transactions that insert new nodes: vacuous" % nsw)
     # implementation -> specification (random driver with reader threads; deferrals come from the hook events)
     tot_defers = 0
     for j, var in enumerate(["", "rc"] + (["direct", "", "rc", "big"] if thorough else [])):
